@@ -235,7 +235,7 @@ func init() {
 		g := genCfg{prop: "C04", classes: OLin}
 		ms := genMapFamilies(g, CMapOfInt, 1, true) // MapOf scenarios are cheap: the quick tier runs the full family set
 		ms = append(ms, genMapFamilies(g, CMapOfStr, lvl, lvl >= 1)...)
-		ms = append(ms, genMapFamilies(g, CMapOfStruct, lvl, false)...)
+		ms = append(ms, genMapFamilies(g, CMapOfStruct, lvl, lvl >= 1)...)
 		return toScenarios(ms)
 	}
 }
